@@ -43,6 +43,7 @@ type Engine struct {
 	noPanic     bool
 	knownOpen   map[string]bool
 	onlyPrefix  string
+	noHang      bool
 	shardK      int
 	shardN      int
 	shardDepth  int
